@@ -599,7 +599,7 @@ def random_case(rng, backwards):
 def run(ctx):
     K = Kit(ctx)
     try:
-        maxdepth = ctx.pick(5, 6)
+        maxdepth = ctx.pick(5, 7)
         exhaustive(K, maxdepth, back_depth=ctx.pick(4, 6))
         idx = 0
         for seq, duration, step in DIRECTED:
@@ -618,7 +618,7 @@ def run(ctx):
                         case = {'kind': 'with', 'body': body, 'duration': duration, 'steps': steps}
                         ctx.sample('with-statement', case)
                         _evaluate(K, case)
-        n_mono, n_back = ctx.pick((2500, 600), (320000, 80000))
+        n_mono, n_back = ctx.pick((2500, 600), (1000000, 250000))
         for i in range(n_mono + n_back):
             idx += 1
             if ctx.mine(idx):
